@@ -35,8 +35,11 @@ def gen_cases(rng, tier):
             cases.append({"medium": "tape", "sources": srcs, "old": rng.choice([None, 0, 100, 21504, 30000])})
         else:
             srcs = gen_sources(rng, rng.choice([0, 1, 3, 6]), eos_rate=0.15, dirs=False, big_rate=0.03)
-            cases.append({"medium": "disk", "is_fd": rng.random() < 0.5, "sources": srcs, "old": rng.choice([None, 0, 100, 1310720, 2000000])})
-    return cases, {"random": n}
+            cases.append({"medium": "disk", "is_fd": rng.random() < 0.5, "sources": srcs, "old": rng.choice([None, 0, 100, 1310720, 2000000, 3000000])})
+    cases.append({"medium": "tape", "sources": [{"arg": "b.bin", "content": {"pat": "42", "len": 300}}], "old": 43008})
+    cases.append({"medium": "disk", "is_fd": True, "sources": [{"arg": "b.bin", "content": {"pat": "42", "len": 300}}], "old": 1400000})
+    cases.append({"medium": "disk", "is_fd": False, "sources": [{"arg": "b.bin", "content": {"pat": "42", "len": 300}}], "old": 2700000})
+    return cases, {"random": n, "fixed": 3}
 
 
 VARIANTS = [("rel", "", False), ("rel-verbose", "", True), ("dotted", "d.ot/x.y/", False), ("abs", "ABS", True), ("again", "", False)]
